@@ -81,7 +81,7 @@ PROPS = {
         assumptions=['trajectory time index strictly increasing (input precondition)']),
     'C06': dict(
         rules=[meas.meas_guard, meas.meas_dep, meas.meas_shape, meas.meas_cols,
-               meas.meas_jacobian,
+               meas.meas_jacobian, meas.meas_noise,
                lambda c: purity.pur_global(c, ('measurements', 'error_model', 'transform',
                                                'earth', 'util'))],
         decided=['no function on the measurement path keeps state in a module/class-level array '
